@@ -90,33 +90,38 @@ Definition t_dec (k n : N) (ad : option N) (c : list wsym) : option (list N) :=
     if wlist_eqb (skipn (l - 16) c) (map (WM k n ad p) mac_idx) then Some p else None
   end.
 
-(* toy 61-bit mixing *)
-Definition P61 : N := 2305843009213693951.
+(* toy 61-bit mixing (no division: fold the high bits back with land/shiftr) *)
+Definition M61 : N := 2305843009213693951.
+Definition fold61 (x : N) : N := N.land x M61 + N.shiftr x 61.
 Definition mix3 (tag a b : N) : N :=
-  let t := (a * 6364136223846793005 + b * 1442695040888963407
-            + tag * 3202034522624059733 + 2862933555777941757) mod P61 in
-  (t * t * 31 + t * 1099511628211 + 14695981039346656037) mod P61.
+  let t := fold61 (fold61 (a * 2654435761 + b * 40503 + tag * 2246822519 + 3266489917)) in
+  fold61 (fold61 (t * t + t * 374761393 + 668265263)).
 
 Definition t_hkdf (salt : N) (ikm : option N) : N * N :=
   let i := match ikm with None => 0 | Some x => x + 1 end in
   (mix3 1 salt i, mix3 2 salt i).
 
-Definition t_mixb (h : N) (bs : list N) : N :=
-  mix3 3 h (fold_left (fun acc b => mix3 4 acc b) bs 5).
+Fixpoint pack_be (bs : list N) (acc : N) : N :=
+  match bs with [] => acc | b :: r => pack_be r (N.shiftl acc 8 + b) end.
 
+Definition t_mixb (h : N) (bs : list N) : N := mix3 3 h (fold61 (fold61 (fold61 (pack_be bs 1)))).
+
+(* cheap per-symbol code; the digest of a ciphertext only has to separate the
+   ciphertexts that Open accepts, and Open accepts exactly one *)
 Definition wsym_code (w : wsym) : N :=
   match w with
   | WB b => b
-  | WE k n i b => mix3 12 (mix3 13 k n) (mix3 14 i b)
-  | WM k n ad p j => mix3 6 (mix3 7 k n) (mix3 8 (match ad with None => 0 | Some a => a + 1 end) j)
+  | WE k n i b => k + n * 7 + i * 13 + b + 1000
+  | WM k n ad p j => k + n * 7 + j * 17 + (match ad with None => 0 | Some a => a + 1 end) + 2000
   | WX => 999
   end.
 
 Definition t_mixc (h : N) (ws : list wsym) : N :=
-  mix3 9 h (fold_left (fun acc w => mix3 10 acc (wsym_code w)) ws 5).
+  mix3 9 h (fold_left (fun acc w => fold61 (N.shiftl acc 5 + wsym_code w)) ws 5).
 
 (* toy Diffie-Hellman in (Z/P61)^*: pub a = G^... replaced by a*G, shared = a*b*G *)
 Definition Gtoy : N := 1234567891011.
+Definition P61 : N := 2305843009213693951.
 Definition t_pub (sk : N) : N := (sk * Gtoy) mod P61.
 Definition t_dh (sk pk : N) : N := mix3 11 ((sk * pk) mod P61) 0.
 
@@ -240,7 +245,11 @@ Definition hs_acts (rs ls ei er target : N) : list wsym * list wsym * list wsym 
 (* returns (codes, agree, final initiator, final responder) *)
 Definition hs_run (c : hs_case)
   : list N * bool * option (tmachine * tmachine) :=
-  let '(b1, b2, b3) := hs_acts (hc_rs c) (hc_ls c) (hc_alt_ei c) (hc_alt_er c) (hc_target c) in
+  let is_alt t := match t with TAlt => true | _ => false end in
+  let '(b1, b2, b3) :=
+      if existsb is_alt (hc_t1 c ++ hc_t2 c ++ hc_t3 c)
+      then hs_acts (hc_rs c) (hc_ls c) (hc_alt_ei c) (hc_alt_er c) (hc_target c)
+      else ([], [], []) in
   let i0 := x_new_initiator (hc_ls c) (t_pub (hc_target c)) in
   let r0 := x_new_responder (hc_rs c) in
   match x_gen_act_one i0 (hc_ei c) with
@@ -299,7 +308,7 @@ Inductive ptamper :=
 
 Inductive top :=
 | TWrite (d : bool) (m : msg) (code : N) (se sn : N)
-| TFlush (d : bool) (rh rb : N * bool) (n : N) (e : bool) (calls : N)
+| TFlush (d : bool) (rh rb : N * bool) (n : N) (e : bool) (calls took : N)
 | TRead (d : bool) (code : N) (m : option msg) (re rn : N)
 | TMany (d : bool) (cnt : N) (m : msg) (okc : N) (se sn re rn : N)
 | TTamp (d : bool) (t : ptamper).
@@ -308,7 +317,7 @@ Record chan := mkCh {
   ch_snd : tsender;
   ch_rcv : tcs;
   ch_pipe : list wsym;     (* written, not yet read *)
-  ch_hist : list wsym      (* everything the writer ever took *)
+  ch_hist : list (list wsym)   (* everything the writer ever took: chunks, newest first *)
 }.
 
 Record tstate := mkTS { ts_ir : chan; ts_ri : chan }.   (* initiator->responder, responder->initiator *)
@@ -335,7 +344,7 @@ Definition apply_ptamper (s : tstate) (d : bool) (t : ptamper) : tstate :=
     | PTrunc n => firstn (N.to_nat n) p
     | PCut off l => firstn (N.to_nat off) p ++ skipn (N.to_nat (off + l)) p
     | PIns src off l at_ =>
-      let h := ch_hist (get_ch s src) in
+      let h := concat (rev (ch_hist (get_ch s src))) in
       let seg := firstn (N.to_nat l) (skipn (N.to_nat off) h) in
       firstn (N.to_nat at_) p ++ seg ++ skipn (N.to_nat at_) p
     end in
@@ -352,7 +361,7 @@ Definition many_step (s : tstate) (d : bool) (pb : list N) : tstate * bool :=
     let fo := x_flush sn1 unlimited unlimited in
     let pipe := ch_pipe c ++ fo_written _ _ fo in
     let '(r, rc, rest) := x_read_message (ch_rcv c) pipe in
-    let c' := mkCh (fo_sender _ _ fo) rc rest (ch_hist c ++ fo_written _ _ fo) in
+    let c' := mkCh (fo_sender _ _ fo) rc rest (fo_written _ _ fo :: ch_hist c) in
     (set_ch s d c',
      match r with Ok q => bytes_eqb q pb && negb (fo_err _ _ fo) | Err _ => false end)
   end.
@@ -375,12 +384,13 @@ Definition tstep (s : tstate) (o : top) : tstate * bool :=
        N.eqb code 0 && pos_ok (sn_cs sn1) se sn)
     | Err e => (s, N.eqb code (err_code e) && pos_ok (sn_cs (ch_snd c)) se sn)
     end
-  | TFlush d rh rb n e calls =>
+  | TFlush d rh rb n e calls took =>
     let c := get_ch s d in
     let fo := x_flush (ch_snd c) rh rb in
     (set_ch s d (mkCh (fo_sender _ _ fo) (ch_rcv c) (ch_pipe c ++ fo_written _ _ fo)
-                      (ch_hist c ++ fo_written _ _ fo)),
-     N.eqb (fo_n _ _ fo) n && Bool.eqb (fo_err _ _ fo) e && N.eqb (fo_calls _ _ fo) calls)
+                      (fo_written _ _ fo :: ch_hist c)),
+     N.eqb (fo_n _ _ fo) n && Bool.eqb (fo_err _ _ fo) e && N.eqb (fo_calls _ _ fo) calls &&
+     N.eqb (len (fo_written _ _ fo)) took)
   | TRead d code m re rn =>
     let c := get_ch s d in
     let '(r, rc, rest) := x_read_message (ch_rcv c) (ch_pipe c) in
@@ -416,7 +426,8 @@ Definition mk_tstate (ir : tmachine * tmachine) : tstate :=
   mkTS (mkCh (mkSnd (m_send _ _ _ _ i) [] []) (m_recv _ _ _ _ r) [] [])
        (mkCh (mkSnd (m_send _ _ _ _ r) [] []) (m_recv _ _ _ _ i) [] []).
 
-Definition tr_init : option tstate := option_map mk_tstate (snd (hs_run tr_handshake)).
+Definition tr_init : option tstate :=
+  Eval vm_compute in option_map mk_tstate (snd (hs_run tr_handshake)).
 
 Inductive case :=
 | CHs (c : hs_case)
